@@ -70,6 +70,23 @@ int call_entry(Ctx& c, const Entry& e, const double* a, Outs& o, const std::stri
   return rc;
 }
 
+// ---- regimes of KNOWN NaN-policy findings (DECISIONS.md): one key per defect, decided from the call
+// site and the NaN argument only; the monitor/arg/out detail goes into the violation record.
+// Checked in this fixed order; anything outside these predicates keeps the per-(entry,arg,out) key.
+std::string nan_regime(const Entry& e, int ai, size_t k) {
+  const std::string& n = e.name;
+  if (n.compare(0, 21, "LambertConformalConic") == 0 && n.find("::Reverse") != std::string::npos && (ai == 1 || ai == 2))
+    return "nan:C13/dependent-output-not-nan/LambertConformalConic::Reverse(x-or-y-nan)";
+  if (n.compare(0, 15, "MagneticModel::") == 0 && n != "MagneticModel::FieldComponents" && ai == 0 && k >= 3)
+    return "nan:C13/dependent-output-not-nan/MagneticModel(t-nan)/rates";
+  if (n == "Intersect::Next") return "nan:C13/dependent-output-not-nan/Intersect::Next(nan-argument)";
+  if (n == "EllipticFunction::RG2" || (n == "EllipticFunction::complete(k2,alpha2)" && ai == 0 && k == 1))
+    return "nan:C13/dependent-output-not-nan/EllipticFunction::RG(nan-argument)";
+  if (n == "AuxLatitude::ToAuxiliary" && (ai == 1 || ai == 2) && k == 2)
+    return "nan:C13/dependent-output-not-nan/AuxLatitude::ToAuxiliary(nan-angle)/diff";
+  return "";
+}
+
 std::vector<std::pair<int, int>> g_pairs;                 // (entry, arg)
 struct Triple { int e, a; double v; };
 std::vector<Triple> g_triples, g_bad;
@@ -151,10 +168,11 @@ void nan_case(Ctx& c, uint64_t idx) {
     bool confirmed = false;
     for (size_t k = 0; k < v.size(); ++k) {
       if (dep[k]) {
-        if (!v[k].nanmark())
-          c.viol("nan:C13/dependent-output-not-nan/" + e.name + "/arg" + std::to_string(ai) + "/out" + std::to_string(k), cls,
-                 J().raw("args", jargs(e, a)).str("hexargs", hexargs(e, a)).f("valid_value_of_arg", keep).raw("baseline", jvals(out0)).raw("with_nan", jvals(v)).i("ellipsoid", g_e));
-        else c.event("nan/dependent-output-is-nan");
+        if (!v[k].nanmark()) {
+          std::string mon = "nan:C13/dependent-output-not-nan/" + e.name + "/arg" + std::to_string(ai) + "/out" + std::to_string(k), rk = nan_regime(e, ai, k);
+          c.viol(rk.empty() ? mon : rk, cls,
+                 J().str("monitor", mon).raw("args", jargs(e, a)).str("hexargs", hexargs(e, a)).f("valid_value_of_arg", keep).raw("baseline", jvals(out0)).raw("with_nan", jvals(v)).i("ellipsoid", g_e));
+        } else c.event("nan/dependent-output-is-nan");
       } else if (!v[k].same(out0[k]) && !single_object && v[k].k != 'x' && !((v[k].k == 's' || v[k].k == 'z' || v[k].k == 'd') && v[k].nanmark())) {
         // did not move in 6 re-draws: look harder before calling it independent
         if (!confirmed) { a[ai] = keep; redraw_any(60); a[ai] = std::numeric_limits<double>::quiet_NaN(); confirmed = true; }
@@ -169,7 +187,10 @@ void nan_case(Ctx& c, uint64_t idx) {
 }
 
 void special_case(Ctx& c, uint64_t idx) {
-  const Triple& t = g_triples[idx % g_triples.size()];
+  // a stride permutation shifted by the seed: a run at scale < 1 (sanitizer build) covers a spread
+  // sample of the (entry, argument, special value) list, a different one for every seed
+  static const uint64_t stride = [] { uint64_t s = 7919; while (std::__gcd<uint64_t>(s, g_triples.size()) != 1) ++s; return s; }();
+  const Triple& t = g_triples[(idx * stride + c.seed * 104729) % g_triples.size()];
   const Entry& e = registry()[t.e];
   g_e = (int)((idx / g_triples.size() + idx) % NE);
   std::string cls = "special/" + e.name;
